@@ -661,7 +661,18 @@ func (e *Engine) evalBinary(st *State, env *cenv, x *CExpr) (Val, error) {
 	if err != nil {
 		return Val{}, err
 	}
-	// short-circuit guards are logical only; evaluate both
+	// a literal guard (e.g. defined(x)) short-circuits so that the other side need not be evaluable
+	if a.K == KBool {
+		if a.T == "false" && (op == "==>" || op == "&&") {
+			if op == "==>" {
+				return Val{K: KBool, T: "true"}, nil
+			}
+			return Val{K: KBool, T: "false"}, nil
+		}
+		if a.T == "true" && op == "||" {
+			return Val{K: KBool, T: "true"}, nil
+		}
+	}
 	b, err := e.evalC(st, env, x.Args[1])
 	if err != nil {
 		return Val{}, err
@@ -860,6 +871,21 @@ func (e *Engine) evalCall(st *State, env *cenv, x *CExpr) (Val, error) {
 			return Val{K: KReal, T: "(to_real " + v.T + ")", Ty: types.Typ[types.Float64]}, nil
 		}
 		return v, nil
+	case "defined": // defined(x): the snap variable x was recorded on this path
+		if args[0].Op != "id" {
+			return Val{}, fmt.Errorf("defined(name)")
+		}
+		ok := false
+		if env.fr != nil {
+			_, ok = env.fr.names[args[0].Name]
+		}
+		if _, isVar := env.vars[args[0].Name]; isVar {
+			ok = true
+		}
+		if ok {
+			return Val{K: KBool, T: "true"}, nil
+		}
+		return Val{K: KBool, T: "false"}, nil
 	case "fresh": // object allocated after function entry
 		v, err := e.evalC(st, env, args[0])
 		if err != nil {
@@ -1145,6 +1171,10 @@ func (e *Engine) evalDesignators(st *State, env *cenv, texts []string) ([]desig,
 			all = true
 			continue
 		}
+		if tx == "memory" { // every program location, but no ghost state
+			out = append(out, desig{heap: "$memory", whole: true})
+			continue
+		}
 		x, err := parseCExpr(tx)
 		if err != nil {
 			return nil, false, err
@@ -1310,6 +1340,19 @@ func (e *Engine) havocDesignators(st *State, env *cenv, texts []string, why stri
 		e.havocAll(st)
 		return
 	}
+	for _, d := range ds {
+		if d.heap == "$memory" {
+			e.havocAllG(st, false)
+			var rest []desig
+			for _, x := range ds {
+				if x.heap != "$memory" && strings.HasPrefix(x.heap, "G$") {
+					rest = append(rest, x)
+				}
+			}
+			ds = rest
+			break
+		}
+	}
 	byHeap := map[string][]desig{}
 	var order []string
 	for _, d := range ds {
@@ -1399,6 +1442,13 @@ func (e *Engine) allowedPred(ac *assignsCtx, heap, a string) string {
 	if ac.all {
 		return "true"
 	}
+	if !strings.HasPrefix(heap, "G$") {
+		for _, d := range ac.byHeap["$memory"] {
+			if d.whole {
+				return "true"
+			}
+		}
+	}
 	var cs []string
 	for _, d := range ac.byHeap[heap] {
 		switch {
@@ -1466,6 +1516,8 @@ func (e *Engine) checkCalleeAssigns(st *State, env *cenv, texts []string, pos to
 	var cs []string
 	for _, d := range ds {
 		switch {
+		case d.heap == "$memory":
+			cs = append(cs, e.allowedWhole(ac, "$memory"))
 		case d.whole:
 			cs = append(cs, e.allowedWhole(ac, d.heap))
 		case d.pred != nil:
